@@ -29,9 +29,34 @@ struct FileCase {
 const unsigned kSweepMaxReads = 32;
 const unsigned kSweepMaxValue = 32;
 
-inline FileCase decodeFileCase(Tape& t, Run& run, bool allowCorpus = true) {
+// allowUnknown: domain bytes 0xD0..0xDF wrap another file case and relabel one or all of its block
+// types to names the library does not register (the file then carries opaque blocks; needs a size table):
+//   [0xD0.., <inner file case>, which]   which = 0xFF: all types, else type index which % n
+inline FileCase decodeFileCase(Tape& t, Run& run, bool allowCorpus = true, bool allowUnknown = false) {
 	FileCase c;
 	auto& types = registeredTypes();
+	if (allowUnknown && t.peek() >= 0xD0 && t.peek() < 0xE0) {
+		t.u8();
+		c = decodeFileCase(t, run, allowCorpus, false);
+		if (!c.ok)
+			return c;
+		uint8_t which = t.u8();
+		auto in = mini::parse(c.bytes);
+		if (in.ok && in.ver.hasSizes() && !in.typeNames.empty()) {
+			std::string names;
+			for (size_t i = 0; i < in.typeNames.size(); i++)
+				if (which == 0xFF || i == which % in.typeNames.size()) {
+					names += in.typeNames[i] + " ";
+					in.typeNames[i] = "Zq" + in.typeNames[i];
+				}
+			c.bytes = mini::write(in);
+			c.kind += "+unknown";
+			c.label += " [unregistered: " + names + "]";
+			c.hash = hash_mix(c.hash, static_cast<uint32_t>(which) + 0x5151u);
+			c.payloadSize = c.bytes.size();
+		}
+		return c;
+	}
 	uint8_t domByte = t.u8();
 	uint8_t dom = domByte >= 0xF0 ? 3 : domByte % 3;
 	if (dom == 1) {
@@ -207,6 +232,14 @@ inline void enumerateSweep(Run& run, const std::function<void(const std::vector<
 	run.feedAll = false;
 	run.cls("sweep:forced-reads-tried", tried);
 	run.cls("sweep:tapes-reaching-new-read-sites", novel);
+}
+
+// every sample with each of its first eight block types, and with all of them, relabelled as unknown
+inline void enumerateUnknownCases(Run& run, const std::function<void(const std::vector<uint8_t>&)>& feed) {
+	size_t n = corpus(run.args.corpus).size();
+	for (size_t i = 0; i < n; i++)
+		for (uint8_t which : {0, 1, 2, 3, 4, 5, 6, 7, 0xFF})
+			feed({0xD0, 1, static_cast<uint8_t>(i), which});
 }
 
 inline std::string caseJson(const FileCase& c) {
